@@ -97,26 +97,24 @@ func (rm *regionManager) updateRegion(meta manifest.RegionMeta) error {
 		metaCopy.State = manifest.RegionStateRunning
 	}
 
-	var currentState manifest.RegionState
-	rm.mu.RLock()
+	// The transition is validated against the state that is current when the update is
+	// installed: check, manifest record and install form one critical section, so two
+	// concurrent updates of a region are applied (and logged) one after the other.
+	rm.mu.Lock()
+	currentState := manifest.RegionStateNew
 	if existing, ok := rm.metaByID[metaCopy.ID]; ok {
 		currentState = existing.State
-	} else {
-		currentState = manifest.RegionStateNew
 	}
-	rm.mu.RUnlock()
-
 	if !validRegionStateTransition(currentState, metaCopy.State) {
+		rm.mu.Unlock()
 		return fmt.Errorf("raftstore: invalid region %d state transition %v -> %v", metaCopy.ID, currentState, metaCopy.State)
 	}
-
 	if rm.manifest != nil {
 		if err := rm.manifest.LogRegionUpdate(metaCopy); err != nil {
+			rm.mu.Unlock()
 			return err
 		}
 	}
-
-	rm.mu.Lock()
 	rm.metaByID[metaCopy.ID] = manifest.CloneRegionMeta(metaCopy)
 	p := rm.peers[metaCopy.ID]
 	rm.mu.Unlock()
